@@ -9,6 +9,7 @@ import (
 	"os"
 	"os/exec"
 	"path/filepath"
+	"regexp"
 	"strconv"
 	"strings"
 	"sync"
@@ -83,7 +84,10 @@ func c02WriteFileWide(path string, file, lines, wide int) int64 {
 			pad = 40000 + (s*7919+file*104729)%290000
 		}
 		b.WriteString(c02Line(file, s, c02IsHit(file, s), pad))
-		b.WriteByte('\n')
+		// one file in three ends without a newline after its last line
+		if s < lines || (file+lines)%3 != 0 {
+			b.WriteByte('\n')
+		}
 	}
 	os.WriteFile(path, b.Bytes(), 0644)
 	return int64(b.Len())
@@ -186,27 +190,58 @@ type c02Obs struct {
 	malformed []string
 }
 
-func c02Parse(out []byte) c02Obs {
+var c02RecRe = regexp.MustCompile(`^F([0-9]{3})#([0-9]{6})#((?:hit)?x*)#([0-9a-f]{8})`)
+
+// c02Parse cuts the output into self-delimiting records. A record is followed
+// by a newline, except the last line of a file that was written without a
+// final newline (unterminated[file] = its sequence number): plain mode prints
+// what the file holds, so the next file's line follows directly.
+func c02Parse(out []byte, unterminated map[int]int) c02Obs {
 	o := c02Obs{perFile: map[int][]int{}}
-	for _, l := range strings.Split(string(out), "\n") {
-		if l == "" {
+	bad := func(rest []byte) {
+		if len(o.malformed) < 5 {
+			o.malformed = append(o.malformed, vlib.Trunc(string(rest), 200))
+		}
+	}
+	rest := out
+	for len(rest) > 0 {
+		if rest[0] == '\n' {
+			rest = rest[1:] // (an empty line cannot be produced by the generated files)
+			bad([]byte("<empty line>"))
 			continue
 		}
-		parts := strings.Split(l, "#")
-		ok := len(parts) == 4 && strings.HasPrefix(parts[0], "F")
-		var file, seq int
-		if ok {
-			var e1, e2 error
-			file, e1 = strconv.Atoi(parts[0][1:])
-			seq, e2 = strconv.Atoi(parts[1])
-			body := strings.Join(parts[:3], "#")
-			ok = e1 == nil && e2 == nil && fmt.Sprintf("%08x", crc32.ChecksumIEEE([]byte(body))) == parts[3]
-		}
-		if !ok {
-			if len(o.malformed) < 5 {
-				o.malformed = append(o.malformed, vlib.Trunc(l, 200))
+		m := c02RecRe.FindSubmatchIndex(rest)
+		if m == nil {
+			// not a record: skip to the end of the line
+			nl := bytes.IndexByte(rest, '\n')
+			if nl < 0 {
+				nl = len(rest) - 1
 			}
+			bad(rest[:nl+1])
+			rest = rest[nl+1:]
 			continue
+		}
+		body := rest[:m[7]] // up to, not including, the '#' before the checksum
+		file, _ := strconv.Atoi(string(rest[m[2]:m[3]]))
+		seq, _ := strconv.Atoi(string(rest[m[4]:m[5]]))
+		if fmt.Sprintf("%08x", crc32.ChecksumIEEE(body)) != string(rest[m[8]:m[9]]) {
+			nl := bytes.IndexByte(rest, '\n')
+			if nl < 0 {
+				nl = len(rest) - 1
+			}
+			bad(rest[:nl+1])
+			rest = rest[nl+1:]
+			continue
+		}
+		rest = rest[m[1]:]
+		if len(rest) > 0 && rest[0] == '\n' {
+			rest = rest[1:]
+		} else if u, ok := unterminated[file]; !ok || u != seq {
+			if len(rest) > 0 {
+				bad(append([]byte(fmt.Sprintf("record F%03d#%06d is not followed by a newline: ", file, seq)), rest[:min(len(rest), 80)]...))
+			} else {
+				bad([]byte(fmt.Sprintf("output ends without a newline after record F%03d#%06d", file, seq)))
+			}
 		}
 		o.perFile[file] = append(o.perFile[file], seq)
 	}
@@ -524,7 +559,13 @@ func c02Run(r *vlib.Run, i int, c *c02Case, cfgs map[int]string, free chan *c02S
 		return
 	}
 	exp := c02Expected(c)
-	obs := c02Parse(out)
+	unterminated := map[int]int{}
+	for _, f := range c.Files {
+		if f.Lines > 0 && (f.ID+f.Lines)%3 == 0 {
+			unterminated[f.ID] = f.Lines
+		}
+	}
+	obs := c02Parse(out, unterminated)
 	if c.Rotate != "" {
 		// the server's own message about the state of the file at the end of
 		// the read (text empty when the server logs errors only) is not content
